@@ -387,8 +387,8 @@ func (w *SrvWorld) checkReleased(now int64) {
 		}
 	}
 	w.e2eMu.Unlock()
-	if closedLong == 0 || w.releaseReported {
-		return
+	if closedLong == 0 || w.releaseReported || len(w.K.StallIntervals()) > 0 {
+		return // (a Refresh(0) parked behind a stall is late, not lost: the TCP-relay plans run under dense stalls too)
 	}
 	if held, _ := lockState(); len(held) > 0 {
 		return
